@@ -555,6 +555,24 @@ def switch_worker(sub, item):
         sub.add(ob_eval(f"C05/intrinsic/pto={pto}/nf={nf}/frame: compute_local leaves the shared manager's switches and order alone; a later non-intrinsic kernel is unaffected", not MANAGER_WRITES and same, kind="frame", detail=f"writes: {MANAGER_WRITES[:2]}; later kernel identical to a fresh run: {same}", inputs={} if (not MANAGER_WRITES and same) else {"sequence": "intrinsic kernel, then non-singlet kernel on one manager", "manager (order, ren, fact) before/after": str(MANAGER_WRITES[:2])}))
         leak = [key for key in got if key[3] > 0 and any(not (isinstance(v, (int, float)) and v == 0) for v in got[key][0])]
         sub.add(ob_eval(f"C05/intrinsic/pto={pto}/nf={nf}/no key with lnF>0", not leak, detail=str(leak), inputs={} if not leak else {"keys": leak}))
+        # the switches hold for intrinsic kernels as for every other one: an intrinsic kernel is the
+        # same kernel with the factorisation variation denied, i.e. for every (ren, fact) it equals the
+        # ordinary-channel result computed with (ren, False), key by key and entry by entry
+        for ren, fact in ((True, True), (True, False), (False, True), (False, False)):
+            sub.cases += 1
+            name = f"C05/intrinsic/pto={pto}/nf={nf}/ren={ren},fact={fact}"
+            gi, _, _ = run_compute_local(sy, pto, ren, fact, nf, "quark", channel="intrinsic")
+            ref, _, _ = run_compute_local(sy, pto, ren, False, nf, "quark")
+            sub.add(ob_eval(f"{name}/all keys initialised", sorted(gi) == sorted(ref)))
+            for key in sorted(ref):
+                if key not in gi:
+                    continue
+                for p_ in range(len(ref[key][0])):
+                    g, f_ = gi[key][0][p_], ref[key][0][p_]
+                    if isinstance(f_, (int, float)) and f_ == 0 and isinstance(g, (int, float)) and g == 0:
+                        continue
+                    sub.add(ob_identity(f"{name}/{key}/pid-index={p_}/= ordinary kernel with the factorisation variation off", g, f_, TOL))
+            sub.add(ob_eval(f"{name}/switched-off keys are exactly zero tensors", all(all(isinstance(v, (int, float)) and v == 0 for v in gi[key][0]) for key in gi if (key[2] > 0 and not ren) or key[3] > 0)))
         return
     full, _, _ = run_compute_local(sy, pto, True, True, nf, kt)
     for ren, fact in ((True, False), (False, True), (False, False)):
